@@ -21,7 +21,7 @@ assert os.path.realpath(freephil.__file__).startswith(os.path.realpath(SRC) + os
 from freephil import tokenizer  # noqa: E402
 warnings.filterwarnings("ignore")  # freephil re-enables its deprecation warnings on import
 
-DRV = os.path.join(VERIF, "lean", ".lake", "build", "bin", "drv")
+DRV = os.environ.get("VERIF_DRV") or os.path.join(VERIF, "lean", ".lake", "build", "bin", "drv")
 AutoT = type(freephil.Auto)
 
 
@@ -51,7 +51,9 @@ def run_model(requests, chunk=20000):
 
 # ------------------------------------------------------------------ canonical forms
 
-_line_re = re.compile(r"\((?:[^()]*, )?(?:input )?line (\d+)\)\s*$")
+# where_str suffix: " (input line N)" or " (<source_info>, line N)"; "(<string>, line N)" is CPython's own
+# SyntaxError text, not a PHIL source position
+_line_re = re.compile(r"\((?!<string>, |<unknown>, )(?:[^()]*, )?(?:input )?line (\d+)\)\s*$")
 
 
 def line_of(where_str):
